@@ -9,6 +9,7 @@ import (
 	"encoding/hex"
 	"fmt"
 	"math"
+	"net/url"
 	"reflect"
 	"sort"
 	"strconv"
@@ -115,6 +116,16 @@ func projValue(x interface{}, depth int) string {
 	switch rv.Kind() {
 	case reflect.Func:
 		return "func"
+	case reflect.Int, reflect.Int8, reflect.Int16, reflect.Int32, reflect.Int64, reflect.Uint, reflect.Uint8, reflect.Uint16, reflect.Uint32, reflect.Uint64,
+		reflect.Bool, reflect.String, reflect.Float32, reflect.Float64:
+		// Go values of other scalar types (int, named types): type and value, no addresses
+		return fmt.Sprintf("other:%s:%v", rv.Type(), rv.Interface())
+	case reflect.Slice, reflect.Array:
+		switch rv.Type().Elem().Kind() {
+		case reflect.Int, reflect.Int8, reflect.Int16, reflect.Int32, reflect.Int64, reflect.Uint, reflect.Uint8, reflect.Uint16, reflect.Uint32, reflect.Uint64,
+			reflect.Bool, reflect.String, reflect.Float32, reflect.Float64:
+			return fmt.Sprintf("other:%s:%v", rv.Type(), rv.Interface())
+		}
 	}
 	return "other:" + rv.Type().String()
 }
@@ -149,7 +160,7 @@ func (h *hostPool) log(vs ...interface{}) {
 	h.trace = append(h.trace, "("+strings.Join(p, ",")+")")
 }
 
-var hostNames = []string{"probe", "probe2", "hvar", "hpair", "hpanic", "hnone", "hfix3", "hzero", "hid"}
+var hostNames = []string{"probe", "probe2", "hvar", "hpair", "hpanic", "hnone", "hfix3", "hzero", "hid", "mkdur", "mkvals", "mkints", "mkptr"}
 
 func (h *hostPool) define(e *env.Env) {
 	e.Define("probe", func(x interface{}) interface{} { h.log(x); return x })
@@ -161,6 +172,11 @@ func (h *hostPool) define(e *env.Env) {
 	e.Define("hfix3", func(a, b, c interface{}) interface{} { h.log(a, b, c); return c })
 	e.Define("hzero", func() interface{} { h.log(); return int64(7) })
 	e.Define("hid", func(x interface{}) interface{} { return x })
+	// Go values of named non-struct types that carry methods (used by impl-only programs; not in the model)
+	e.Define("mkdur", func() time.Duration { return 1500 * time.Millisecond })
+	e.Define("mkvals", func() url.Values { return url.Values{"k": {"one", "two"}} })
+	e.Define("mkints", func() sort.IntSlice { return sort.IntSlice{3, 1, 2} })
+	e.Define("mkptr", func() *time.Duration { d := 90 * time.Second; return &d })
 }
 
 type interpResult struct {
@@ -303,7 +319,12 @@ func interpLine(src string, cancelAt int) (line string, c interpCase, ok bool) {
 	if err != nil {
 		return "", interpCase{Src: src, Impl: interpResult{Status: "parse-error", Msg: err.Error()}}, false
 	}
-	c = interpCase{Src: src, CancelAt: cancelAt, Impl: runImpl(stmt, cancelAt)}
+	if why := superBegin(); why != "" {
+		// an earlier attempt died or hung on this program: do not run it again
+		c = interpCase{Src: src, CancelAt: cancelAt, Impl: interpResult{Status: "crash", Msg: why}}
+	} else {
+		c = interpCase{Src: src, CancelAt: cancelAt, Impl: runImpl(stmt, cancelAt)}
+	}
 	prog := "()"
 	if stmt != nil {
 		prog = "(" + dumpNode(stmt) + ")"
